@@ -174,6 +174,8 @@ func (r *CheckRun) harnessCfg(fn *ssa.Function) (Cfg, []string, []string) {
 				cfg.MaxTimerFires = n
 			case "solverms":
 				cfg.SolverTimeoutMs = n
+			case "sched":
+				cfg.SchedFIFO = v == "fifo"
 			case "maporder":
 				cfg.MapOrderIn = v
 			case "maprev":
@@ -268,6 +270,9 @@ func (r *CheckRun) Execute() int {
 	}
 	for _, fn := range entries {
 		cfg, expect, notes := r.harnessCfg(fn)
+		if v := os.Getenv("GOSMT_MAXPATHS"); v != "" { // debugging aid
+			fmt.Sscanf(v, "%d", &cfg.MaxPaths)
+		}
 		hr := &HarnessResult{Name: fn.Name(), Pkg: fn.Pkg.Pkg.Path(), Cfg: cfg, Notes: notes}
 		for _, e := range expect {
 			if e == "!nonative" {
